@@ -38,6 +38,7 @@ fn main() {
         "space" => engines::space::run(&args),
         "fuzzopen" => engines::fuzzopen::run(&args),
         "fuzz-child" => engines::fuzzopen::child(&args),
+        "migrate" => engines::migrate::run(&args),
         "scratch" => engines::scratchpad::run(&args),
         other => {
             eprintln!("unknown engine {other}");
